@@ -11,6 +11,9 @@ Set Implicit Arguments.
 #[export] Instance collapse_pair R veq {PI : PairIdx R} : PairIdx (collapse R veq) :=
   @Build_PairIdx (collapse R veq) (@to_pair R PI) (@of_pair R PI).
 
+#[export] Instance codec_pair : PairIdx codec_owned :=
+  @Build_PairIdx codec_owned (fun i : nat * nat => i) (fun i : nat * nat => i).
+
 (** a wire value is a string iff it is a list of bytes forming valid UTF-8 *)
 Definition str_wf (u : uval) : bool :=
   match u with
